@@ -276,7 +276,11 @@ def run_shard(shard):
                 two.append((label, pd))
             if len(desc[3]) <= 2:
                 for label1, pd1 in perturbations(desc, "quick"):
+                    if label1.startswith("long-value"):
+                        continue  # (pairs of their own, judged above)
                     for label2, pd2 in perturbations(pd1, "quick"):
+                        if label2.startswith("long-value"):
+                            continue
                         two.append(("two-point:%s+%s" % (label1.split("@")[0].split(":")[0], label2.split("@")[0].split(":")[0]), pd2))
             for label, pd in two:
                 n2 = norm(pd)
